@@ -258,6 +258,16 @@ fn check_chain(c: &ChainCase, cx: &mut Cx) -> Res {
             return Ok(());
         }
     }
+    if c.touch || c.before % 2 == 1 {
+        // the commit also carries pre-release tags of the same release (an rc promoted to final):
+        // the final tag is the base
+        for twin in [format!("{}{}.{}.{}-rc.1", if c.v_prefix { "v" } else { "" }, c.tag[0], c.tag[1], c.tag[2]), format!("{}.{}.{}rc2", c.tag[0], c.tag[1], c.tag[2])] {
+            let mut cmd = std::process::Command::new("git");
+            crate::gitlab::git_env(&mut cmd);
+            let _ = cmd.current_dir(&repo.dir).args(["tag", &twin]).status();
+            repo.log.push(format!("git tag {twin}"));
+        }
+    }
     let tagged_commit = repo.model.head_commit();
     if c.touch && !(run(&mut repo, Op::TouchUnchanged) && run(&mut repo, Op::EmptyDir)) {
         return Ok(());
